@@ -573,11 +573,19 @@ fn gen_case(r: &mut Rng, prop: &str, seed: u64, idx: u64) -> Case {
                 } else { sites.push(Site { k: Rk::Code, sp, id, owner: Owner::Func(probe_id), flavour: fl, flavour2: 0 }); }
             }
         }
+        // half of the cases: the second half of the injected references goes in front of the probe function's FINAL end
+        // (the before-list of the last instruction takes its own path through the encoder)
+        let split = if r.chance(1, 2) { first_injected + (sites.len() - first_injected) / 2 } else { sites.len() };
         let enc = catch_unwind(AssertUnwindSafe(|| {
             {
                 let mut fm = module.functions.get_fn_modifier(FunctionID(probe_id as u32)).unwrap();
+                let last = fm.body.instructions.len() - 1;
                 fm.before_at(Location::Module { func_idx: FunctionID(0), instr_idx: 0 });
-                for n in first_injected..sites.len() { for o in code_site_ops(n, &sites[n]) { fm.inject(o); } }
+                for n in first_injected..split { for o in code_site_ops(n, &sites[n]) { fm.inject(o); } }
+                if split < sites.len() {
+                    fm.before_at(Location::Module { func_idx: FunctionID(0), instr_idx: last });
+                    for n in split..sites.len() { for o in code_site_ops(n, &sites[n]) { fm.inject(o); } }
+                }
             }
             let a = module.encode();
             let b = catch_unwind(AssertUnwindSafe(|| module.encode())).ok();
